@@ -1,4 +1,5 @@
-import ZipVerif.Lemmas.ReadWf
+import ZipVerif.Lemmas.ReadWfZ
+import ZipVerif.Lemmas.StripZip64
 import ZipVerif.Lemmas.WLDefs
 /-
 `ZipWriter::new_append` (`Model.newAppend`) on `Spec.Zip.build l`: the same end-record search, ZIP64
@@ -8,37 +9,61 @@ old central directory, which the appending writer will overwrite.
 Differences to `openArchive` that matter here:
 * the disk check is unconditional (`footer.diskNumber != footer.diskWithCd`, no `record_too_small`);
 * the D16 check `directory_start > cde_start → InvalidArchive`;
-* the result is a writer state (`WState.init` with the re-hydrated records, the old comment and
+* the result is a writer state (`WState.init` with the re-hydrated records — each passed through
+  `appendRecord`, which drops inherited ZIP64 extra records (D20) —, the old comment and
   `writing_raw = true`), and the device is left positioned at `directory_start`.
 -/
 
 namespace ZipVerif.Model
 open ZipVerif ZipVerif.Spec.Zip
 
-/-- the `let rec` loop of `newAppend` is the reader's central-directory loop -/
-theorem newAppend_loop_eq (ao : Nat) : ∀ n, newAppend.loop ao n = readCentralLoop ao n := by
-  intro n
-  induction n with
-  | zero => rfl
-  | succ n ih =>
-    show (do let f ← centralHeader ao; let rest ← newAppend.loop ao n; pure (f :: rest)) = _
-    rw [ih]
-    rfl
+/-- the `let rec` loop of `newAppend` on the central directory of a layout: the reader's views, each
+passed through `appendRecord` (the D20 repair: inherited ZIP64 extra records are dropped) -/
+theorem parses_appendLoopZ (ao : Nat) : ∀ (es : List Entry) (loc chs : Nat),
+    (∀ e ∈ es, e.Fits) → ReadableZFrom es loc → loc + (localsBytes es).length + ao < 2 ^ 64 →
+    Parses (newAppend.loop ao es.length) chs (centralBytes es (localOffsets es loc))
+      ((viewList ao es loc chs).map appendRecord) := by
+  intro es
+  induction es with
+  | nil => intro loc chs _ _ _; exact Parses.pure _
+  | cons e es ih =>
+    intro loc chs hall hz hb
+    have he := hall e (List.mem_cons_self)
+    obtain ⟨⟨hm, hx⟩, hzr⟩ := hz
+    rw [localsBytes_cons, List.length_append] at hb
+    have hlb : e.gapBefore.length ≤ e.localBytes.length := by
+      simp only [Entry.localBytes, List.length_append]; omega
+    show Parses (newAppend.loop ao (es.length + 1)) chs
+      (centralRecord e (UInt64.ofNat (loc + e.gapBefore.length)) ++
+        centralBytes es (localOffsets es (loc + e.localBytes.length))) _
+    unfold newAppend.loop
+    refine Parses.bind (parses_centralHeaderZ e _ ao chs he hx hm (by omega)) ?_
+    refine Parses.bind_last (ih _ _ (fun x hx => hall x (List.mem_cons_of_mem _ hx)) hzr (by omega)) ?_
+    exact Parses.pure _
 
 /-- The writer state `new_append` builds for the layout `l`. -/
 def appendStateOf (l : Layout) : WState :=
-  { WState.init with files := viewOf l, comment := l.comment, writingRaw := true }
+  { WState.init with files := (viewOf l).map appendRecord, comment := l.comment, writingRaw := true }
+
+/-- the run of `new_append`'s central-directory loop on `build l` -/
+abbrev AppendLoopRuns (l : Layout) : Prop :=
+  Runs (newAppend.loop l.pre.length l.entries.length) (build l) l.cdStart
+    (.ok ((viewOf l).map appendRecord))
+    (l.cdStart + (centralBytes l.entries (localOffsets l.entries 0)).length)
+
+theorem runs_appendLoopZ (l : Layout) (hF : l.Fits) (hR : l.ReadableZ) : AppendLoopRuns l := by
+  have hb := fits_bounds l hF
+  exact (parses_appendLoopZ l.pre.length l.entries 0 l.cdStart hF.1 hR (by omega)).toRuns (drop_cdStart l)
 
 /-- The tail of `newAppend` once the end record and the directory counts are known. -/
-theorem runs_newAppend_tail (l : Layout) (hF : l.Fits) (hR : l.Readable) (p1 q1 : Nat)
+theorem runs_newAppend_tail_of_loop (l : Layout) (hF : l.Fits)
+    (hloop : AppendLoopRuns l) (p1 q1 : Nat)
     (hfind : Runs findAndParseEocd (build l) p1 (.ok (eocdOf l, l.eocdPos))
       (l.eocdPos + 22 + l.comment.length))
     (hcounts : Runs (getDirectoryCounts (eocdOf l) l.eocdPos) (build l)
       (l.eocdPos + 22 + l.comment.length) (.ok (l.pre.length, l.cdStart, l.entries.length)) q1) :
     Runs newAppend (build l) p1 (.ok (appendStateOf l)) l.cdStart := by
   have hb := fits_bounds l hF
-  have hloop := (parses_centralLoop l.pre.length l.entries 0 l.cdStart
-    (fun e he => ⟨hF.1 e he, hR e he⟩) (by omega)).toRuns (drop_cdStart l)
   have hle : ¬ l.cdStart > l.eocdPos := by
     simp only [Layout.eocdPos]; omega
   unfold newAppend
@@ -50,13 +75,25 @@ theorem runs_newAppend_tail (l : Layout) (hF : l.Fits) (hR : l.Readable) (p1 q1 
   rw [if_neg hle]
   refine Runs.bind (Runs.attempt_ok (Runs.seek_start _)) ?_
   dsimp only
-  rw [newAppend_loop_eq]
   refine Runs.bind hloop ?_
   refine Runs.bind (Runs.attempt_ok (Runs.seek_start l.cdStart)) ?_
   exact Runs.pure _
 
-/-- **`new_append` on a layout without ZIP64 end records.** -/
-theorem append_plain (l : Layout) (hF : l.Fits) (hR : l.Readable) (h64 : l.needs64 = false)
+/-- the run of `new_append`'s loop on `build l`, from `Readable` -/
+theorem runs_appendLoop (l : Layout) (hF : l.Fits) (hR : l.Readable) : AppendLoopRuns l :=
+  runs_appendLoopZ l hF (readable_imp_readableZ l hR)
+
+theorem runs_newAppend_tail (l : Layout) (hF : l.Fits) (hR : l.Readable) (p1 q1 : Nat)
+    (hfind : Runs findAndParseEocd (build l) p1 (.ok (eocdOf l, l.eocdPos))
+      (l.eocdPos + 22 + l.comment.length))
+    (hcounts : Runs (getDirectoryCounts (eocdOf l) l.eocdPos) (build l)
+      (l.eocdPos + 22 + l.comment.length) (.ok (l.pre.length, l.cdStart, l.entries.length)) q1) :
+    Runs newAppend (build l) p1 (.ok (appendStateOf l)) l.cdStart :=
+  runs_newAppend_tail_of_loop l hF (runs_appendLoop l hF hR) p1 q1 hfind hcounts
+
+/-- **`new_append` on a layout without ZIP64 end records** (the central-directory loop's run given). -/
+theorem append_plain_of_loop (l : Layout) (hF : l.Fits)
+    (hloop : AppendLoopRuns l) (h64 : l.needs64 = false)
     (hwin : l.comment.length + l.trailing.length ≤ 65535)
     (hnfE : ∀ k, l.eocdPos < k → k + 22 ≤ (build l).length → u32At (build l) k ≠ some sigEocd)
     (hnfL : 42 + l.comment.length ≤ (build l).length →
@@ -78,10 +115,20 @@ theorem append_plain (l : Layout) (hF : l.Fits) (hR : l.Readable) (h64 : l.needs
     have e1 : l.pre.length + l.cdOffset + l.cdSize - l.cdSize - l.cdOffset = l.pre.length := by omega
     rw [e1, Nat.add_comm l.cdOffset]
     rfl
-  exact runs_newAppend_tail l hF hR p0 q1 hfind hq1'
+  exact runs_newAppend_tail_of_loop l hF hloop p0 q1 hfind hq1'
 
-/-- **`new_append` on a layout with ZIP64 end record + locator** (nothing after the comment). -/
-theorem append_z64 (l : Layout) (hF : l.Fits) (hR : l.Readable) (h64 : l.needs64 = true)
+/-- **`new_append` on a layout without ZIP64 end records.** -/
+theorem append_plain (l : Layout) (hF : l.Fits) (hR : l.Readable) (h64 : l.needs64 = false)
+    (hwin : l.comment.length + l.trailing.length ≤ 65535)
+    (hnfE : ∀ k, l.eocdPos < k → k + 22 ≤ (build l).length → u32At (build l) k ≠ some sigEocd)
+    (hnfL : 42 + l.comment.length ≤ (build l).length →
+      u32At (build l) ((build l).length - 42 - l.comment.length) ≠ some sigLocator) (p0 : Nat) :
+    Runs newAppend (build l) p0 (.ok (appendStateOf l)) l.cdStart :=
+  append_plain_of_loop l hF (runs_appendLoop l hF hR) h64 hwin hnfE hnfL p0
+
+/-- **`new_append` on a layout with ZIP64 end record + locator** (the loop's run given). -/
+theorem append_z64_of_loop (l : Layout) (hF : l.Fits)
+    (hloop : AppendLoopRuns l) (h64 : l.needs64 = true)
     (ht : l.trailing = [])
     (hnfE : ∀ k, l.eocdPos < k → k + 22 ≤ (build l).length → u32At (build l) k ≠ some sigEocd)
     (hnf64 : ∀ k, l.cdOffset + l.cdSize ≤ k → k < l.end64Pos → u32At (build l) k ≠ some sigEocd64)
@@ -135,13 +182,20 @@ theorem append_z64 (l : Layout) (hF : l.Fits) (hR : l.Readable) (h64 : l.needs64
     have e1 : l.end64Pos - (l.cdOffset + l.cdSize) = l.pre.length := by omega
     rw [e1, Nat.add_comm l.cdOffset]
     rfl
-  exact runs_newAppend_tail l hF hR p0 _ hfind hq1'
+  exact runs_newAppend_tail_of_loop l hF hloop p0 _ hfind hq1'
 
-/-- **`newAppend_on_layout`** — `ZipWriter::new_append` on the bytes of a well-formed layout returns the
-writer state whose records are the reader's views of the central directory, whose comment is the old
-archive comment and whose `writing_raw` flag is set; the sink still holds the archive and is positioned
-on the first byte of the OLD central directory (which the next write overwrites). -/
-theorem newAppend_on_layout (l : Layout) (hF : l.Fits) (hR : l.Readable) (hS : NoFalseSig l)
+/-- **`new_append` on a layout with ZIP64 end record + locator** (nothing after the comment). -/
+theorem append_z64 (l : Layout) (hF : l.Fits) (hR : l.Readable) (h64 : l.needs64 = true)
+    (ht : l.trailing = [])
+    (hnfE : ∀ k, l.eocdPos < k → k + 22 ≤ (build l).length → u32At (build l) k ≠ some sigEocd)
+    (hnf64 : ∀ k, l.cdOffset + l.cdSize ≤ k → k < l.end64Pos → u32At (build l) k ≠ some sigEocd64)
+    (p0 : Nat) :
+    Runs newAppend (build l) p0 (.ok (appendStateOf l)) l.cdStart :=
+  append_z64_of_loop l hF (runs_appendLoop l hF hR) h64 ht hnfE hnf64 p0
+
+/-- `newAppend_on_layout` with the run of the central-directory loop as a hypothesis. -/
+theorem newAppend_on_layout_of_loop (l : Layout) (hF : l.Fits)
+    (hloop : AppendLoopRuns l) (hS : NoFalseSig l)
     (ht : l.trailing = [] ∨ l.needs64 = false) :
     ∃ d', newAppend.runPure (Dev.ofBytes (build l)) = (.ok (appendStateOf l), d') ∧
       d'.buf = build l ∧ d'.pos = l.cdStart := by
@@ -155,7 +209,7 @@ theorem newAppend_on_layout (l : Layout) (hF : l.Fits) (hR : l.Readable) (hS : N
     rwa [e] at this
   cases h64 : l.needs64 with
   | false =>
-    exact append_plain l hF hR h64 hwin hnfE (hii h64) 0 (Dev.ofBytes (build l)) rfl rfl
+    exact append_plain_of_loop l hF hloop h64 hwin hnfE (hii h64) 0 (Dev.ofBytes (build l)) rfl rfl
   | true =>
     have htr : l.trailing = [] := by
       rcases ht with h | h
@@ -169,7 +223,24 @@ theorem newAppend_on_layout (l : Layout) (hF : l.Fits) (hR : l.Readable) (hS : N
       have := hiii h64 (k - (l.cdOffset + l.cdSize)) (by omega)
       have e : l.cdOffset + l.cdSize + (k - (l.cdOffset + l.cdSize)) = k := by omega
       rwa [e] at this
-    exact append_z64 l hF hR h64 htr hnfE hnf64 0 (Dev.ofBytes (build l)) rfl rfl
+    exact append_z64_of_loop l hF hloop h64 htr hnfE hnf64 0 (Dev.ofBytes (build l)) rfl rfl
+
+/-- **`newAppend_on_layout`** — `ZipWriter::new_append` on the bytes of a well-formed layout returns the
+writer state whose records are the reader's views of the central directory, whose comment is the old
+archive comment and whose `writing_raw` flag is set; the sink still holds the archive and is positioned
+on the first byte of the OLD central directory (which the next write overwrites). -/
+theorem newAppend_on_layout (l : Layout) (hF : l.Fits) (hR : l.Readable) (hS : NoFalseSig l)
+    (ht : l.trailing = [] ∨ l.needs64 = false) :
+    ∃ d', newAppend.runPure (Dev.ofBytes (build l)) = (.ok (appendStateOf l), d') ∧
+      d'.buf = build l ∧ d'.pos = l.cdStart :=
+  newAppend_on_layout_of_loop l hF (runs_appendLoop l hF hR) hS ht
+
+/-- `newAppend_on_layout` under `ReadableZ` (further ZIP64 records in the foreign extra data). -/
+theorem newAppend_on_layoutZ (l : Layout) (hF : l.Fits) (hR : l.ReadableZ) (hS : NoFalseSig l)
+    (ht : l.trailing = [] ∨ l.needs64 = false) :
+    ∃ d', newAppend.runPure (Dev.ofBytes (build l)) = (.ok (appendStateOf l), d') ∧
+      d'.buf = build l ∧ d'.pos = l.cdStart :=
+  newAppend_on_layout_of_loop l hF (runs_appendLoopZ l hF hR) hS ht
 
 /-- The live part of the sink after `new_append`: everything in front of the old central directory. -/
 theorem take_cdStart (l : Layout) :
